@@ -350,7 +350,7 @@ func forEachMediaRange(header []byte, functor func([]byte)) {
 
 	for len(header) > 0 {
 		n := 0
-		header = utils.TrimLeft(header, ' ')
+		header = bytes.TrimLeft(header, " \t")
 		quotes := 0
 		escaping := false
 
@@ -391,6 +391,72 @@ func forEachMediaRange(header []byte, functor func([]byte)) {
 			return
 		}
 		header = header[n+1:]
+	}
+}
+
+// isTokenByte reports whether c is a tchar (RFC 9110, section 5.6.2).
+func isTokenByte(c byte) bool {
+	switch {
+	case c >= 'a' && c <= 'z', c >= 'A' && c <= 'Z', c >= '0' && c <= '9':
+		return true
+	default:
+		return strings.IndexByte("!#$%&'*+-.^_`|~", c) != -1
+	}
+}
+
+// forEachParameter calls f for each parameter of the parameter list b of a media range
+// (b starts at the ';' that follows the range). Like fasthttp.VisitHeaderParams, but with
+// the optional whitespace of RFC 9110, section 5.6.6, which is SP or HTAB:
+//
+//	parameters = *( OWS ";" OWS [ parameter ] )
+//	parameter  = parameter-name "=" ( token / quoted-string )
+//
+// The value of a quoted-string is passed as written, without the surrounding quotes.
+// The scan stops when f returns false or at the first parameter that does not fit the grammar.
+func forEachParameter(b []byte, f func(key, value []byte) bool) {
+	for {
+		i := bytes.IndexByte(b, ';')
+		if i == -1 {
+			return
+		}
+		b = b[i+1:]
+		for len(b) > 0 && (b[0] == ' ' || b[0] == '\t') {
+			b = b[1:]
+		}
+
+		n := 0
+		for n < len(b) && isTokenByte(b[n]) {
+			n++
+		}
+		if n == 0 || n >= len(b)-1 || b[n] != '=' {
+			return
+		}
+		key := b[:n]
+		n++
+
+		m := n
+		switch {
+		case isTokenByte(b[n]):
+			for n < len(b) && isTokenByte(b[n]) {
+				n++
+			}
+			if !f(key, b[m:n]) {
+				return
+			}
+		case b[n] == '"':
+			m++
+			escaping := false
+			for n++; n < len(b) && (b[n] != '"' || escaping); n++ {
+				escaping = b[n] == '\\' && !escaping
+			}
+			if n == len(b) || !f(key, b[m:n]) {
+				return
+			}
+			n++
+		default:
+			return
+		}
+		b = b[n:]
 	}
 }
 
@@ -438,7 +504,7 @@ func getOffer(header []byte, isAccepted func(spec, offer string, specParams head
 				for k := range params {
 					delete(params, k)
 				}
-				fasthttp.VisitHeaderParams(accept[i:], func(key, value []byte) bool {
+				forEachParameter(accept[i:], func(key, value []byte) bool {
 					if len(key) == 1 && (key[0] == 'q' || key[0] == 'Q') {
 						if q, err := fasthttp.ParseUfloat(value); err == nil {
 							quality = q
@@ -458,7 +524,7 @@ func getOffer(header []byte, isAccepted func(spec, offer string, specParams head
 			}
 		}
 
-		spec = utils.Trim(spec, ' ')
+		spec = bytes.Trim(spec, " \t")
 
 		// Determine specificity
 		var specificity int
